@@ -112,6 +112,35 @@ def set_pool(k0: int, k1: int, k2: int, i: int, vk: int) -> bool:
     return after == expected and _reload_same(doc)
 
 
+def set_two_lists(k: int) -> bool:
+    """Two lists (and a list of lists) holding pooled objects - equal lists included: only the addressed element changes."""
+    k = realize(k)
+    k0, k = k % 3, k // 3
+    k1, k = k % 3, k // 3
+    k2, k = k % 3, k // 3
+    k3, k = k % 3, k // 3
+    which, k = k % 3, k // 3
+    i = k % 2
+    p, q = cseq(POOL[k0], POOL[k1]), cseq(POOL[k2], POOL[k3])
+    rows = cseq(cseq(POOL[k0], POOL[k1]), cseq(POOL[k2], POOL[k3]))
+    doc = cmap(("p", p), ("q", q), ("rows", rows))
+    before = _plain(doc)
+    path = ["p[%d]" % i, "q[%d]" % i, "rows[1][%d]" % (i - 2)][which]
+    note(document=before, path=path, value=9)
+    proc = Processor(LOG, doc)
+    proc.set_value(path, 9, mustexist=True)
+    expected = before
+    if which == 0:
+        expected[1][0][1][1][i] = 9
+    elif which == 1:
+        expected[1][1][1][1][i] = 9
+    else:
+        expected[1][2][1][1][1][1][i] = 9
+    after = _plain(doc)
+    note(after=after, expected=expected)
+    return after == expected
+
+
 def set_key_pool(k: int, vk: int) -> bool:
     """{a: <pooled>, b: x}: setting a changes only a's value (keys spelled like the old value stay)."""
     k, vk = realize(k), realize(vk)
@@ -263,6 +292,9 @@ def shards(tier, seed):
                              ["0 <= k1 < 4 and 0 <= k2 < 4", "0 <= i <= 2"], family="pool/list",
                              budget=900, kind="S",
                              desc="pooled real objects in a list (equal leaves share one object), set l[i]; dump + reload"))
+    out.append(shard(PID, "pool/two_lists", "harness.c03", "set_two_lists(k)", [("k", "int")], ["0 <= k < %d" % (81 * 6)],
+                     family="pool/two_lists", budget=1200, kind="S",
+                     desc="two lists and a list of rows over pooled objects (equal lists included); set one element"))
     out.append(shard(PID, "pool/key", "harness.c03", "set_key_pool(k, vk)", [("k", "int"), ("vk", "int")],
                      ["0 <= k < 4", "0 <= vk < 4"], family="pool/key", budget=600, kind="S",
                      desc="value spelled like a key elsewhere; set changes only the value"))
